@@ -527,7 +527,7 @@ func run(c *mc.Ctx) {
 			bset = append(bset, s.core[k])
 		}
 		// always keep the extreme values
-		for _, v := range []*big.Int{big.NewInt(0), ref.L, two255m1} {
+		for _, v := range []*big.Int{big.NewInt(0), ref.L, two255m1, new(big.Int).Lsh(big.NewInt(1), 254), new(big.Int).Lsh(big.NewInt(1), 253), new(big.Int).Sub(new(big.Int).Lsh(big.NewInt(1), 254), big.NewInt(1))} {
 			bset = append(bset, pos[v.Text(16)])
 		}
 		bset = dedupInts(bset)
